@@ -7,40 +7,37 @@ Import ListNotations.
 (* ------------------------------------------------------------------ *)
 (* scrapped is never reset; a selected element is not scrapped          *)
 (* ------------------------------------------------------------------ *)
-Lemma step_scrapped_mono : forall fixed limit st t st' e, Inv0 st -> step fixed limit st t = Some st' ->
+Lemma step_scrapped_mono : forall fixed safe limit st t st' e, Inv0 st -> step fixed safe limit st t = Some st' ->
   e_scrapped (elems st e) = true -> e_scrapped (elems st' e) = true.
 Proof.
-  intros fixed limit st t st' e I H Hs. step_field I H.
+  intros fixed safe limit st t st' e I H Hs. step_field I H.
   all: try match goal with
-       | |- context [commit_all ?bad ?st ?W] =>
-           destruct (commit_all_elems bad W st e) as [V1 V2];
-           destruct (in_dec Nat.eq_dec e (map snd W)) as [Hin|Hin];
-           [destruct (V1 Hin) as (_ & _ & _ & _ & _ & _ & V); simpl; rewrite V, Hs; apply orb_true_r
-           |simpl; rewrite (V2 Hin); exact Hs]
+       | |- context [commit_all ?sf ?bad ?st ?W] =>
+           destruct (commit_all_elems sf bad W st e) as ((_ & _ & _ & _ & V) & _); simpl; auto
        end.
   all: simpl; upd_cases; simpl; auto.
   all: try (rewrite (i_a0 _ I) in Hs by lia; discriminate Hs).
 Qed.
 
-Lemma next_scrapped_mono : forall fixed limit st l e, Inv0 st ->
-  e_scrapped (elems st e) = true -> e_scrapped (elems (next fixed limit st l) e) = true.
+Lemma next_scrapped_mono : forall fixed safe limit st l e, Inv0 st ->
+  e_scrapped (elems st e) = true -> e_scrapped (elems (next fixed safe limit st l) e) = true.
 Proof.
-  intros fixed limit st l e I Hs. unfold next. destruct (lstep fixed limit st l) eqn:E; auto.
+  intros fixed safe limit st l e I Hs. unfold next. destruct (lstep fixed safe limit st l) eqn:E; auto.
   destruct l as [t|n]; simpl in E.
   - eapply step_scrapped_mono; eauto.
   - destruct (free (mlock st)); [|discriminate]. injection E as <-. exact Hs.
 Qed.
-Lemma run_scrapped_mono : forall fixed limit ls st e, Inv0 st ->
-  e_scrapped (elems st e) = true -> e_scrapped (elems (run fixed limit ls st) e) = true.
+Lemma run_scrapped_mono : forall fixed safe limit ls st e, Inv0 st ->
+  e_scrapped (elems st e) = true -> e_scrapped (elems (run fixed safe limit ls st) e) = true.
 Proof.
   induction ls; simpl; intros st e I Hs; auto.
   apply IHls; [now apply next_Inv0|now apply next_scrapped_mono].
 Qed.
 
-Lemma select_not_scrapped : forall fixed limit st t st' e, Inv0 st -> step fixed limit st t = Some st' ->
+Lemma select_not_scrapped : forall fixed safe limit st t st' e, Inv0 st -> step fixed safe limit st t = Some st' ->
   selects st t st' e -> e_scrapped (elems st e) = false.
 Proof.
-  intros fixed limit st t st' e I H [Hn (w & c & Hp & He)]. step_field I H.
+  intros fixed safe limit st t st' e I H [Hn (w & c & Hp & He)]. step_field I H.
   all: simpl in Hp; rewrite upd_eq in Hp; simpl in Hp; try discriminate Hp.
   all: try (injection Hp as Hp1 Hp2; subst; simpl in * ).
   all: try (rewrite (i_a0 _ I) by lia; reflexivity).
@@ -48,77 +45,82 @@ Proof.
   all: try (exfalso; eapply Hn; eauto).
 Qed.
 
-Lemma thm_scrapped_not_reused : forall fixed limit st e, reachable fixed limit st ->
+Lemma thm_scrapped_not_reused : forall fixed safe limit st e, reachable fixed safe limit st ->
   e_scrapped (elems st e) = true ->
-  forall ls t st3, let st2 := run fixed limit ls st in
-    step fixed limit st2 t = Some st3 -> ~ selects st2 t st3 e.
+  forall ls t st3, let st2 := run fixed safe limit ls st in
+    step fixed safe limit st2 t = Some st3 -> ~ selects st2 t st3 e.
 Proof.
-  intros fixed limit st e R Hs ls t st3 st2 H Hsel.
-  pose proof (reachable_Inv0 _ _ _ R) as I.
+  intros fixed safe limit st e R Hs ls t st3 st2 H Hsel.
+  pose proof (reachable_Inv0 _ _ _ _ R) as I.
   assert (I2 : Inv0 st2) by (apply run_Inv0; auto).
-  pose proof (run_scrapped_mono fixed limit ls st e I Hs) as Hs2.
-  pose proof (select_not_scrapped _ _ _ _ _ _ I2 H Hsel). fold st2 in Hs2. congruence.
+  pose proof (run_scrapped_mono fixed safe limit ls st e I Hs) as Hs2.
+  pose proof (select_not_scrapped _ _ _ _ _ _ _ I2 H Hsel). fold st2 in Hs2. congruence.
 Qed.
 
 (* ------------------------------------------------------------------ *)
 (* Inv1: invariants of the CURRENT version of With (fixed = true)      *)
 (* ------------------------------------------------------------------ *)
-Record Inv1 (st : state) : Prop := {
+Record Inv1 (safe : bool) (st : state) : Prop := {
   i_L : forall n e t, lookup n (mmap st) = Some e -> e_writer (elems st e) = Some t ->
           e_wheld (elems st e) = true ->
           lookup n (written (txs st t)) = Some e /\ done (txs st t) = false;
   i_K : forall t, done (txs st t) = true ->
           match ph (txs st t) with PCreate w | PWait w _ => w_ro w = true | _ => True end;
   i_M : forall t w, ph (txs st t) = PCreate w -> lookup (w_n w) (mmap st) = None;
-  i_K2 : forall t w e, ph (txs st t) = PWait w e -> has_key (w_n w) (written (txs st t)) = false
+  i_K2 : forall t w e, ph (txs st t) = PWait w e -> has_key (w_n w) (written (txs st t)) = false;
+  i_K3 : forall t w e, ph (txs st t) = PLock w e -> safe = true -> done (txs st t) = false ->
+           has_key (w_n w) (written (txs st t)) = false
 }.
 
-Lemma commit_facts : forall st t bad, Inv0 st -> done (txs st t) = false ->
+Lemma commit_facts : forall st t safe bad, Inv0 st -> done (txs st t) = false ->
   let W := written (txs st t) in
-  let st1 := commit_all bad st W in
+  let st1 := commit_all safe bad st W in
   (forall e, (exists n, lookup n W = Some e) ->
       e_writer (elems st e) = Some t /\ e_wheld (elems st e) = true /\
       e_writer (elems st1 e) = None /\ e_wheld (elems st1 e) = false) /\
-  (forall e, (forall n, lookup n W <> Some e) -> elems st1 e = elems st e) /\
+  (forall e, (forall n, lookup n W <> Some e) ->
+      e_writer (elems st1 e) = e_writer (elems st e) /\ e_wheld (elems st1 e) = e_wheld (elems st e)) /\
   (forall e, (exists n, lookup n W = Some e) \/ (forall n, lookup n W <> Some e)) /\
   txs st1 = txs st /\ mlock st1 = mlock st /\ nexte st1 = nexte st.
 Proof.
-  intros st t bad I Hdone W st1.
-  destruct (commit_view st t bad I) as (V1 & V2 & Dec).
-  destruct (commit_all_frame bad (written (txs st t)) st) as (Fn & Fm & Fc & Ft).
+  intros st t safe bad I Hdone W st1.
+  destruct (commit_view st t safe bad I) as (V0 & V1 & V2 & Dec).
+  destruct (commit_all_frame safe bad (written (txs st t)) st) as (Fn & Fm & Fc & Ft).
   repeat split; auto.
   - destruct H as [n D]. apply (i_c4 _ I t n e D Hdone).
   - destruct H as [n D]. apply (i_c4 _ I t n e D Hdone).
-  - destruct (V1 e H) as (_ & _ & _ & _ & a & b & _). auto.
-  - destruct (V1 e H) as (_ & _ & _ & _ & a & b & _). auto.
+  - apply (V1 e H).
+  - apply (V1 e H).
+  - apply (V2 e H).
+  - apply (V2 e H).
 Qed.
 
 Ltac done_false J t E :=
   match goal with
   | |- done (txs ?st t) = false =>
       let Ed := fresh "Ed" in let Kk := fresh "Kk" in
-      destruct (done (txs st t)) eqn:Ed; auto; pose proof (i_K _ J t Ed) as Kk; rewrite E in Kk; simpl in Kk; congruence
+      destruct (done (txs st t)) eqn:Ed; auto; pose proof (i_K _ _ J t Ed) as Kk; rewrite E in Kk; simpl in Kk; congruence
   end.
 
-Lemma step_L : forall limit st t st', Inv0 st -> Inv1 st -> step true limit st t = Some st' ->
+Lemma step_L : forall safe limit st t st', Inv0 st -> Inv1 safe st -> step true safe limit st t = Some st' ->
   forall n e t', lookup n (mmap st') = Some e -> e_writer (elems st' e) = Some t' ->
           e_wheld (elems st' e) = true ->
           lookup n (written (txs st' t')) = Some e /\ done (txs st' t') = false.
 Proof.
-  intros limit st t st' I J H. step_field I H.
+  intros safe limit st t st' I J H. step_field I H.
   all: try match goal with
-       | D : done (txs ?st ?t) = false |- context [commit_all ?bad ?st _] =>
-           destruct (commit_facts st t bad I D) as (C1 & C2 & Dec & Ct & Cm & Cn);
+       | D : done (txs ?st ?t) = false |- context [commit_all ?sf ?bad ?st _] =>
+           destruct (commit_facts st t sf bad I D) as (C1 & C2 & Dec & Ct & Cm & Cn);
            simpl; intros n' e' t' Hl Hw Hh; apply commit_all_map_sub in Hl; rewrite Ct;
            destruct (Dec e') as [Dd|Dd];
            [destruct (C1 e' Dd) as (_ & _ & X & _); congruence|];
-           rewrite (C2 e' Dd) in Hw, Hh; destruct (i_L _ J _ _ _ Hl Hw Hh) as (A & B);
+           destruct (C2 e' Dd) as (Cw & Ch); rewrite Cw in Hw; rewrite Ch in Hh; destruct (i_L _ _ J _ _ _ Hl Hw Hh) as (A & B);
            unfold upd; destruct (Nat.eqb_spec t' t); [subst; exfalso; eapply Dd; eauto|auto]
        end.
   all: simpl; intros n' e' t' Hl Hw Hh; map_hyp Hl.
   all: try match type of Hl with (if ?b then _ else _) = _ => destruct b eqn:Eb; [apply Nat.eqb_eq in Eb; inversion Hl; subst|] end.
   all: simpl in Hw, Hh; upd_cases; simpl in Hw, Hh; try discriminate.
-  all: try (destruct (i_L _ J _ _ _ Hl Hw Hh) as (A & B)).
+  all: try (destruct (i_L _ _ J _ _ _ Hl Hw Hh) as (A & B)).
   all: try (injection Hw as Hw; subst).
   all: simpl; upd_cases; simpl; try rewrite lookup_set_key; try rewrite Nat.eqb_refl; try split; eauto; try congruence.
   all: try (rewrite E3 in A; discriminate A).
@@ -128,85 +130,104 @@ Proof.
   all: try (exfalso; lia).
   all: try match goal with |- (if ?a =? ?b then _ else _) = _ => destruct (Nat.eqb_spec a b) end; auto.
   all: try congruence.
-  all: try (pose proof (i_M _ J t _ E) as Hm; subst; congruence).
-  all: try (pose proof (i_K2 _ J t _ _ E) as Hk; unfold has_key in Hk; match goal with e0 : w_n _ = _ |- _ => rewrite e0 in Hk end; rewrite A in Hk; discriminate).
+  all: try (pose proof (i_M _ _ J t _ E) as Hm; subst; congruence).
+  all: try (pose proof (i_K2 _ _ J t _ _ E) as Hk; unfold has_key in Hk; match goal with e0 : w_n _ = _ |- _ => rewrite e0 in Hk end; rewrite A in Hk; discriminate).
 Qed.
 
-Lemma step_K : forall limit st t st', Inv0 st -> Inv1 st -> step true limit st t = Some st' ->
+Lemma step_K : forall safe limit st t st', Inv0 st -> Inv1 safe st -> step true safe limit st t = Some st' ->
   forall t', done (txs st' t') = true ->
           match ph (txs st' t') with PCreate w | PWait w _ => w_ro w = true | _ => True end.
 Proof.
-  intros limit st t st' I J H. step_field I H.
+  intros safe limit st t st' I J H. step_field I H.
   all: try match goal with
-       | D : done (txs ?st ?t) = false |- context [commit_all ?bad ?st _] =>
-           destruct (commit_facts st t bad I D) as (C1 & C2 & Dec & Ct & Cm & Cn); simpl; rewrite Ct
+       | D : done (txs ?st ?t) = false |- context [commit_all ?sf ?bad ?st _] =>
+           destruct (commit_facts st t sf bad I D) as (C1 & C2 & Dec & Ct & Cm & Cn); simpl; rewrite Ct
        end.
   all: simpl; intros t' Hd; upd_cases; simpl in *; auto.
-  all: try (apply (i_K _ J); auto).
-  all: try (pose proof (i_K _ J t Hd) as Kk; rewrite E in Kk; simpl in Kk; auto).
+  all: try (apply (i_K _ _ J); auto).
+  all: try (pose proof (i_K _ _ J t Hd) as Kk; rewrite E in Kk; simpl in Kk; auto).
   all: try (rewrite Hd in *; simpl in *; destruct ro; simpl in *; congruence).
   all: try congruence.
 Qed.
 
-Lemma step_M : forall fixed limit st t st', Inv0 st -> Inv1 st -> step fixed limit st t = Some st' ->
+Lemma step_M : forall fixed safe limit st t st', Inv0 st -> Inv1 safe st -> step fixed safe limit st t = Some st' ->
   forall t' w, ph (txs st' t') = PCreate w -> lookup (w_n w) (mmap st') = None.
 Proof.
-  intros fixed limit st t st' I J H. step_field I H.
+  intros fixed safe limit st t st' I J H. step_field I H.
   all: repeat match goal with Hf : free (mlock _) = true |- _ => apply free_none in Hf end.
   all: try match goal with
-       | D : done (txs ?st ?t) = false |- context [commit_all ?bad ?st _] =>
-           destruct (commit_facts st t bad I D) as (C1 & C2 & Dec & Ct & Cm & Cn); simpl; rewrite Ct
+       | D : done (txs ?st ?t) = false |- context [commit_all ?sf ?bad ?st _] =>
+           destruct (commit_facts st t sf bad I D) as (C1 & C2 & Dec & Ct & Cm & Cn); simpl; rewrite Ct
        end.
   all: simpl; intros t' w' Hp; upd_cases; simpl in Hp; try discriminate Hp.
   all: try (pose proof (i_m2 _ I _ _ Hp) as Hm; congruence).
   all: try (injection Hp as Hp; subst; simpl; auto).
-  all: try (apply (i_M _ J _ _ Hp)).
+  all: try (apply (i_M _ _ J _ _ Hp)).
 Qed.
 
-Lemma step_K2 : forall fixed limit st t st', Inv0 st -> Inv1 st -> step fixed limit st t = Some st' ->
+Lemma step_K2 : forall safe limit st t st', Inv0 st -> Inv1 safe st -> step true safe limit st t = Some st' ->
   forall t' w e, ph (txs st' t') = PWait w e -> has_key (w_n w) (written (txs st' t')) = false.
 Proof.
-  intros fixed limit st t st' I J H. step_field I H.
+  intros safe limit st t st' I J H. step_field I H.
   all: try match goal with
-       | D : done (txs ?st ?t) = false |- context [commit_all ?bad ?st _] =>
-           destruct (commit_facts st t bad I D) as (C1 & C2 & Dec & Ct & Cm & Cn); simpl; rewrite Ct
+       | D : done (txs ?st ?t) = false |- context [commit_all ?sf ?bad ?st _] =>
+           destruct (commit_facts st t sf bad I D) as (C1 & C2 & Dec & Ct & Cm & Cn); simpl; rewrite Ct
        end.
   all: simpl; intros t' w' e' Hp; upd_cases; simpl in Hp; try discriminate Hp.
   all: try (injection Hp as Hp; subst; simpl; auto).
-  all: try (apply (i_K2 _ J _ _ _ Hp)).
+  all: try (apply (i_K2 _ _ J _ _ _ Hp)).
   all: try congruence.
+  all: destruct safe; simpl in *; auto; apply (i_K3 _ _ J _ _ _ E); auto.
 Qed.
 
-Lemma step_Inv1 : forall limit st t st', Inv0 st -> Inv1 st -> step true limit st t = Some st' -> Inv1 st'.
+Lemma step_K3 : forall fixed safe limit st t st', Inv0 st -> Inv1 safe st -> step fixed safe limit st t = Some st' ->
+  forall t' w e, ph (txs st' t') = PLock w e -> safe = true -> done (txs st' t') = false ->
+          has_key (w_n w) (written (txs st' t')) = false.
 Proof.
-  intros limit st t st' I J H. constructor.
+  intros fixed safe limit st t st' I J H. step_field I H.
+  all: try match goal with
+       | D : done (txs ?st ?t) = false |- context [commit_all ?sf ?bad ?st _] =>
+           destruct (commit_facts st t sf bad I D) as (C1 & C2 & Dec & Ct & Cm & Cn); simpl; rewrite Ct
+       end.
+  all: simpl; intros t' w' e' Hp Hsf Hd; upd_cases; simpl in Hp, Hd; try discriminate Hp.
+  all: try (injection Hp as Hp1 Hp2; subst; simpl; auto).
+  all: try (apply (i_K3 _ _ J _ _ _ Hp); auto).
+  all: try congruence.
+  all: try (simpl in *; rewrite Hd in *; simpl in *; unfold has_key; match goal with Hx : lookup _ _ = None |- _ => rewrite Hx end; reflexivity).
+Qed.
+
+Lemma step_Inv1 : forall safe limit st t st', Inv0 st -> Inv1 safe st -> step true safe limit st t = Some st' -> Inv1 safe st'.
+Proof.
+  intros safe limit st t st' I J H. constructor.
   - eapply step_L; eauto.
   - eapply step_K; eauto.
   - eapply step_M; eauto.
   - eapply step_K2; eauto.
+  - eapply step_K3; eauto.
 Qed.
-Lemma del_Inv1 : forall st n, Inv0 st -> Inv1 st -> mlock st = None -> Inv1 (set_map st (remove_key n (mmap st))).
+Lemma del_Inv1 : forall safe st n, Inv0 st -> Inv1 safe st -> mlock st = None -> Inv1 safe (set_map st (remove_key n (mmap st))).
 Proof.
-  intros st n I J Hm. constructor; simpl.
-  - intros n' e t Hl. apply lookup_remove_some in Hl. destruct Hl as [Hl _]. now apply (i_L _ J).
-  - apply (i_K _ J).
+  intros safe st n I J Hm. constructor; simpl.
+  - intros n' e t Hl. apply lookup_remove_some in Hl. destruct Hl as [Hl _]. now apply (i_L _ _ J).
+  - apply (i_K _ _ J).
   - intros t w Hp. pose proof (i_m2 _ I _ _ Hp). congruence.
-  - apply (i_K2 _ J).
+  - apply (i_K2 _ _ J).
+  - apply (i_K3 _ _ J).
 Qed.
-Lemma next_Inv1 : forall limit st l, Inv0 st -> Inv1 st -> Inv1 (next true limit st l).
+Lemma next_Inv1 : forall safe limit st l, Inv0 st -> Inv1 safe st -> Inv1 safe (next true safe limit st l).
 Proof.
-  intros limit st l I J. unfold next. destruct (lstep true limit st l) eqn:E; auto.
+  intros safe limit st l I J. unfold next. destruct (lstep true safe limit st l) eqn:E; auto.
   destruct l as [t|n]; simpl in E.
   - eapply step_Inv1; eauto.
   - destruct (free (mlock st)) eqn:F; [|discriminate]. injection E as <-. apply del_Inv1; auto. now apply free_none.
 Qed.
-Lemma init_Inv1 : forall progs, Inv1 (init progs).
+Lemma init_Inv1 : forall safe progs, Inv1 safe (init progs).
 Proof.
-  intros progs. constructor; intros; try rewrite init_ph in *; try rewrite init_written in *; simpl in *;
+  intros safe progs. constructor; intros; try rewrite init_ph in *; try rewrite init_written in *; simpl in *;
     try discriminate; auto.
 Qed.
-Lemma run_Inv01 : forall limit ls st, Inv0 st -> Inv1 st ->
-  Inv0 (run true limit ls st) /\ Inv1 (run true limit ls st).
+Lemma run_Inv01 : forall safe limit ls st, Inv0 st -> Inv1 safe st ->
+  Inv0 (run true safe limit ls st) /\ Inv1 safe (run true safe limit ls st).
 Proof.
   induction ls; simpl; intros st I J; auto.
   apply IHls; [now apply next_Inv0|now apply next_Inv1].
@@ -215,12 +236,12 @@ Qed.
 (* ------------------------------------------------------------------ *)
 (* locks are released                                                  *)
 (* ------------------------------------------------------------------ *)
-Lemma thm_locks_released : forall limit progs ls,
-  let st := run true limit ls (init progs) in
+Lemma thm_locks_released : forall safe limit progs ls,
+  let st := run true safe limit ls (init progs) in
   all_done st -> locks_released st.
 Proof.
-  intros limit progs ls st Hall.
-  destruct (run_Inv01 limit ls (init progs) (init_Inv0 progs) (init_Inv1 progs)) as [I J]. fold st in I, J.
+  intros safe limit progs ls st Hall.
+  destruct (run_Inv01 safe limit ls (init progs) (init_Inv0 progs) (init_Inv1 safe progs)) as [I J]. fold st in I, J.
   split.
   - destruct (mlock st) as [t|] eqn:Hm; auto.
     destruct (i_m1 _ I _ Hm) as (w & Hp). destruct (Hall t) as [[Hph _] _]. congruence.
@@ -228,7 +249,7 @@ Proof.
     + destruct (e_writer (elems st e)) as [t|] eqn:Hw; auto.
       destruct (Hall t) as [[Hph _] Hd].
       destruct (e_wheld (elems st e)) eqn:Hh.
-      * destruct (i_L _ J _ _ _ Hl Hw Hh). congruence.
+      * destruct (i_L _ _ J _ _ _ Hl Hw Hh). congruence.
       * destruct (i_c2 _ I _ _ Hw Hh) as (w & Hp). congruence.
     + destruct (e_readers (elems st e)) as [|t r] eqn:Hr; auto.
       assert (Hin : In t (e_readers (elems st e))) by (rewrite Hr; simpl; auto).
@@ -255,13 +276,13 @@ Proof.
     now destruct (i_c1 _ I _ _ _ Hp) as (_ & _ & ?).
 Qed.
 
-Lemma registered_writer_live : forall st n e t', Inv0 st -> Inv1 st ->
+Lemma registered_writer_live : forall safe st n e t', Inv0 st -> Inv1 safe st ->
   lookup n (mmap st) = Some e -> e_writer (elems st e) = Some t' -> done (txs st t') = false.
 Proof.
-  intros st n e t' I J Hl Hw. destruct (e_wheld (elems st e)) eqn:Hh.
-  - now destruct (i_L _ J _ _ _ Hl Hw Hh).
+  intros safe st n e t' I J Hl Hw. destruct (e_wheld (elems st e)) eqn:Hh.
+  - now destruct (i_L _ _ J _ _ _ Hl Hw Hh).
   - destruct (i_c2 _ I _ _ Hw Hh) as (w & Hp). destruct (i_c1 _ I _ _ _ Hp) as (_ & _ & Hr).
-    destruct (done (txs st t')) eqn:Hd; auto. pose proof (i_K _ J _ Hd) as Kk. rewrite Hp in Kk. congruence.
+    destruct (done (txs st t')) eqn:Hd; auto. pose proof (i_K _ _ J _ Hd) as Kk. rewrite Hp in Kk. congruence.
 Qed.
 
 Lemma Q_commit_arg : forall st s tq e w, Inv0 st -> disjoint_writers st ->
@@ -277,35 +298,35 @@ Proof.
   - split; auto. left. now rewrite <- Hn.
 Qed.
 
-Lemma step_Q : forall limit st s st', Inv0 st -> Inv1 st -> InvQ st -> disjoint_writers st ->
-  step true limit st s = Some st' -> InvQ st'.
+Lemma step_Q : forall safe limit st s st', Inv0 st -> Inv1 safe st -> InvQ st -> disjoint_writers st ->
+  step true safe limit st s = Some st' -> InvQ st'.
 Proof.
-  intros limit st s st' I J Q Dj H. unfold InvQ. step_field I H.
+  intros safe limit st s st' I J Q Dj H. unfold InvQ. step_field I H.
   all: try match goal with
-       | D : done (txs ?st ?t) = false |- context [commit_all ?bad ?st _] =>
-           destruct (commit_facts st t bad I D) as (C1 & C2 & Dec & Ct & Cm & Cn); simpl; rewrite Ct
+       | D : done (txs ?st ?t) = false |- context [commit_all ?sf ?bad ?st _] =>
+           destruct (commit_facts st t sf bad I D) as (C1 & C2 & Dec & Ct & Cm & Cn); simpl; rewrite Ct
        end.
   all: simpl; intros e' tq' tq w' Hw Hd Hp Hro Hnd.
   all: upd_cases; simpl in *; try discriminate; try congruence.
-  all: try match goal with Hw : e_writer (elems (commit_all _ _ _) ?e) = _ |- _ => destruct (Dec e) as [Dd|Dd]; [destruct (C1 e Dd) as (_ & _ & X & _); congruence| rewrite (C2 e Dd) in Hw] end.
+  all: try match goal with Hw : e_writer (elems (commit_all _ _ _ _) ?e) = _ |- _ => destruct (Dec e) as [Dd|Dd]; [destruct (C1 e Dd) as (_ & _ & X & _); congruence| destruct (C2 e Dd) as (Cw & Ch); rewrite Cw in Hw] end.
   all: try solve [eapply Q; eauto].
-  all: try match goal with Hl : lookup _ (mmap ?st) = Some ?e, Hw : e_writer (elems ?st ?e) = Some ?t' |- _ => pose proof (registered_writer_live _ _ _ _ I J Hl Hw); congruence end.
+  all: try match goal with Hl : lookup _ (mmap ?st) = Some ?e, Hw : e_writer (elems ?st ?e) = Some ?t' |- _ => pose proof (registered_writer_live _ _ _ _ _ I J Hl Hw); congruence end.
   all: try solve [eapply (Q_commit_arg st s); eauto].
-  all: try (pose proof (i_K _ J _ Hd) as Kk; rewrite E in Kk; simpl in Kk; congruence).
+  all: try (pose proof (i_K _ _ J _ Hd) as Kk; rewrite E in Kk; simpl in Kk; congruence).
 Qed.
 
-Lemma next_Q : forall limit st l, Inv0 st -> Inv1 st -> InvQ st -> disjoint_writers st ->
-  InvQ (next true limit st l).
+Lemma next_Q : forall safe limit st l, Inv0 st -> Inv1 safe st -> InvQ st -> disjoint_writers st ->
+  InvQ (next true safe limit st l).
 Proof.
-  intros limit st l I J Q Dj. unfold next. destruct (lstep true limit st l) eqn:E; auto.
+  intros safe limit st l I J Q Dj. unfold next. destruct (lstep true safe limit st l) eqn:E; auto.
   destruct l as [t|n]; simpl in E.
   - eapply step_Q; eauto.
   - destruct (free (mlock st)); [|discriminate]. injection E as <-. exact Q.
 Qed.
 
-Lemma run_always_Q : forall limit ls st, Inv0 st -> Inv1 st -> InvQ st ->
-  always disjoint_writers true limit ls st ->
-  let st' := run true limit ls st in Inv0 st' /\ Inv1 st' /\ InvQ st' /\ disjoint_writers st'.
+Lemma run_always_Q : forall safe limit ls st, Inv0 st -> Inv1 safe st -> InvQ st ->
+  always disjoint_writers true safe limit ls st ->
+  let st' := run true safe limit ls st in Inv0 st' /\ Inv1 safe st' /\ InvQ st' /\ disjoint_writers st'.
 Proof.
   induction ls; simpl; intros st I J Q A; auto.
   destruct A as [Dj A]. apply IHls; auto.
@@ -321,10 +342,10 @@ Ltac enabled Hp :=
          | |- context [if ?x then _ else _] => let E := fresh "En" in destruct x eqn:E
          end; try (eexists; reflexivity); simpl in *; try discriminate; try congruence.
 
-Lemma progress_state : forall limit st, Inv0 st -> Inv1 st -> InvQ st -> disjoint_writers st ->
-  (exists t, ~ finished (txs st t)) -> exists t st', step true limit st t = Some st'.
+Lemma progress_state : forall safe limit st, Inv0 st -> Inv1 safe st -> InvQ st -> disjoint_writers st ->
+  (exists t, ~ finished (txs st t)) -> exists t st', step true safe limit st t = Some st'.
 Proof.
-  intros limit st I J Q Dj [t0 Hnf].
+  intros safe limit st I J Q Dj [t0 Hnf].
   destruct (mlock st) as [h|] eqn:Hm.
   { destruct (i_m1 _ I _ Hm) as (w & Hp). exists h. enabled Hp. }
   (* the manager mutex is free *)
@@ -334,7 +355,9 @@ Proof.
   - pose proof (i_m2 _ I _ _ Hp). congruence.
   - (* PLock *) destruct (w_ro w) eqn:Hro; [exists t0; enabled Hp|].
     destruct (done (txs st t0)) eqn:Hd; [exists t0; enabled Hp|].
-    destruct (has_key (w_n w) (written (txs st t0))) eqn:Hk; [exists t0; enabled Hp|].
+    destruct (negb safe && has_key (w_n w) (written (txs st t0))) eqn:Hk0; [exists t0; enabled Hp|].
+    assert (Hk : has_key (w_n w) (written (txs st t0)) = false).
+    { destruct safe; simpl in Hk0; auto. apply (i_K3 _ _ J _ _ _ Hp); auto. }
     destruct (e_writer (elems st e)) as [t'|] eqn:Hw; [|exists t0; enabled Hp].
     exfalso.
     destruct (i_a2 _ I t0 e) as (_ & _ & w' & Hw' & Hn); [rewrite Hp; reflexivity|].
@@ -364,12 +387,12 @@ Qed.
 Lemma init_Q : forall progs, InvQ (init progs).
 Proof. intros progs e t' t w Hw. simpl in Hw. discriminate. Qed.
 
-Lemma thm_progress : forall limit progs ls,
-  always disjoint_writers true limit ls (init progs) ->
-  let st := run true limit ls (init progs) in
-  (exists t, ~ finished (txs st t)) -> exists t st', step true limit st t = Some st'.
+Lemma thm_progress : forall safe limit progs ls,
+  always disjoint_writers true safe limit ls (init progs) ->
+  let st := run true safe limit ls (init progs) in
+  (exists t, ~ finished (txs st t)) -> exists t st', step true safe limit st t = Some st'.
 Proof.
-  intros limit progs ls A st Hex.
-  destruct (run_always_Q limit ls (init progs) (init_Inv0 progs) (init_Inv1 progs) (init_Q progs) A) as (I & J & Q & Dj).
+  intros safe limit progs ls A st Hex.
+  destruct (run_always_Q safe limit ls (init progs) (init_Inv0 progs) (init_Inv1 safe progs) (init_Q progs) A) as (I & J & Q & Dj).
   eapply progress_state; eauto.
 Qed.
